@@ -30,6 +30,7 @@ const (
 	evPut = iota
 	evTxnPut
 	evTxnEmptyBranch
+	evDelete
 	evReplicateOne
 	evReplicateAll
 	evReopen
@@ -40,7 +41,7 @@ const (
 	nEvB
 )
 
-var evBName = []string{"client-put", "client-txn(put)", "client-txn(empty-taken-branch)", "replicate-next-entry", "replicate-all-pending", "follower-close+reopen", "follower-recovery-batch(no-leader-index)", "follower-non-application-entries(+3)", "tick(1s)", "cancel-oldest-pending-call"}
+var evBName = []string{"client-put", "client-txn(put)", "client-txn(empty-taken-branch)", "client-delete(pre-existing key)", "replicate-next-entry", "replicate-all-pending", "follower-close+reopen", "follower-recovery-batch(no-leader-index)", "follower-non-application-entries(+3)", "tick(1s)", "cancel-oldest-pending-call"}
 
 type leaderStub struct {
 	kv simraft.KV
@@ -67,6 +68,7 @@ type callB struct {
 	key      string
 	kind     int
 	rev      uint64
+	pos      uint64 // position of the call's entry in the leader log
 	cancel   context.CancelFunc
 	done     bool
 	err      error
@@ -181,6 +183,17 @@ func runPathB(t *testing.T, path []int) (viols [][2]string, outcome string) {
 			return err
 		}
 		followerLeaderIndex := func() uint64 { li, _ := follower.LeaderIndex(); return li }
+		// a pre-existing pair, written on the leader (log position 1) and already replicated
+		if _, err := lkv.Put(context.Background(), &regattapb.PutRequest{Table: Table, Key: B("pre"), Value: B("v")}); err != nil {
+			viol("setup", err.Error())
+			return
+		}
+		leaderCmds = append(leaderCmds, Put("pre", "v", false))
+		if err := applyFollower(WithLeader(Seq(leaderCmds[0]), 1)); err != nil {
+			viol("setup", err.Error())
+			return
+		}
+		shipped = 1
 		startCall := func(kind int) {
 			id := len(calls)
 			c := &callB{id: id, key: fmt.Sprintf("k%d", id), kind: kind}
@@ -197,7 +210,10 @@ func runPathB(t *testing.T, path []int) (viols [][2]string, outcome string) {
 				leaderCmds = append(leaderCmds, Txn(nil, Ops(OpPut(c.key, "v", false)), nil))
 			case evTxnEmptyBranch:
 				leaderCmds = append(leaderCmds, Txn(Cmps(Exists("never", nil)), Ops(OpPut(c.key, "v", false)), nil))
+			case evDelete:
+				leaderCmds = append(leaderCmds, Del("pre", nil, false, false))
 			}
+			c.pos = uint64(len(leaderCmds))
 			go func() {
 				var err error
 				switch kind {
@@ -219,6 +235,12 @@ func runPathB(t *testing.T, path []int) (viols [][2]string, outcome string) {
 					if r != nil {
 						c.rev = r.Header.GetRevision()
 					}
+				case evDelete:
+					var r *regattapb.DeleteRangeResponse
+					r, err = srv.DeleteRange(ctx, &regattapb.DeleteRangeRequest{Table: Table, Key: B("pre")})
+					if r != nil {
+						c.rev = r.Header.GetRevision()
+					}
 				}
 				// read-your-writes: a read on the same node right after the acknowledgement
 				visible := true
@@ -226,14 +248,18 @@ func runPathB(t *testing.T, path []int) (viols [][2]string, outcome string) {
 				if err == nil {
 					li := followerLeaderIndex()
 					readBack = fmt.Sprintf("follower leader index %d", li)
-					if kind != evTxnEmptyBranch {
+					if kind == evDelete {
+						rr, rerr := srv.Range(context.Background(), &regattapb.RangeRequest{Table: Table, Key: B("pre")})
+						visible = rerr == nil && len(rr.Kvs) == 0
+						readBack += fmt.Sprintf(", range(pre) -> %v %v", rr.GetKvs(), rerr)
+					} else if kind != evTxnEmptyBranch {
 						rr, rerr := srv.Range(context.Background(), &regattapb.RangeRequest{Table: Table, Key: B(c.key)})
 						visible = rerr == nil && len(rr.Kvs) == 1 && string(rr.Kvs[0].Value) == "v"
 						readBack += fmt.Sprintf(", range(%s) -> %v %v", c.key, rr.GetKvs(), rerr)
 					} else {
 						// nothing was written; the acknowledgement still promises that the node has
 						// applied the leader log up to the transaction's position
-						visible = li >= uint64(id+1)
+						visible = li >= c.pos
 					}
 				}
 				cmu.Lock()
@@ -262,7 +288,7 @@ func runPathB(t *testing.T, path []int) (viols [][2]string, outcome string) {
 	events:
 		for _, e := range path {
 			switch e {
-			case evPut, evTxnPut, evTxnEmptyBranch:
+			case evPut, evTxnPut, evTxnEmptyBranch, evDelete:
 				startCall(e)
 			case evReplicateOne, evReplicateAll:
 				n := 1
@@ -331,13 +357,15 @@ func runPathB(t *testing.T, path []int) (viols [][2]string, outcome string) {
 						kind = "txn"
 					} else if c.kind == evTxnEmptyBranch {
 						kind = "txn-empty-branch"
+					} else if c.kind == evDelete {
+						kind = "delete"
 					}
 					viol("e2e/acknowledged-write-not-readable-on-the-node/"+kind, fmt.Sprintf("call %d (revision %d) returned nil; %s", c.id, c.rev, c.readBack))
 					c.visible = true // report once
 				}
-				if !c.done && c.rev == 0 && li >= uint64(c.id+1) {
-					// the leader position of call i is i+1 (one entry per forwarded write)
-					viol("e2e/call-still-waiting-although-node-applied-its-revision", fmt.Sprintf("call %d (leader position %d) pending, follower leader index %d", c.id, c.id+1, li))
+				if !c.done && c.rev == 0 && li >= c.pos {
+					// one leader entry per forwarded write
+					viol("e2e/call-still-waiting-although-node-applied-its-revision", fmt.Sprintf("call %d (leader position %d) pending, follower leader index %d", c.id, c.pos, li))
 				}
 			}
 			cmu.Unlock()
@@ -370,7 +398,7 @@ func TestEndToEnd(t *testing.T) {
 	if run.Thorough() {
 		depth = 6
 	}
-	run.Rule(fmt.Sprintf("Part B: every event sequence of length 0..%d over %v on a follower whose local index starts ahead of the leader index; invariants: a forwarded call that returns nil finds its write (resp. the transaction's log position) on the follower at that moment; a call does not keep waiting once the follower recorded a leader index at or beyond its revision; the queue never wedges", depth, evBName))
+	run.Rule(fmt.Sprintf("Part B: every event sequence of length 0..%d over %v with 1..3 client calls, on a follower whose local index starts ahead of the leader index and that holds one pre-existing replicated pair; invariants: a forwarded call that returns nil finds its write (resp. the deleted key gone, resp. the transaction's log position) on the follower at that moment; a call does not keep waiting once the follower recorded a leader index at or beyond its revision; the queue never wedges", depth, evBName))
 	total := par.SeqCount(nEvB, depth)
 	// sequential inside one test goroutine per shard: bubbles need a *testing.T of their own
 	shards := 16
@@ -385,13 +413,13 @@ func TestEndToEnd(t *testing.T) {
 				}
 				path := par.SeqAt(nEvB, depth, i)
 				// skip paths without any client call: nothing to observe
-				has := false
+				nCalls := 0
 				for _, e := range path {
-					if e <= evTxnEmptyBranch {
-						has = true
+					if e <= evDelete {
+						nCalls++
 					}
 				}
-				if !has {
+				if nCalls == 0 || nCalls > 3 {
 					continue
 				}
 				vs, outcome := runPathB(t, path)
